@@ -7,18 +7,10 @@ import CoseModel.Generated.Facts
 open CoseModel CoseSpec
 namespace C10
 
-/-- the four context strings of the source, in the order of the branches
-    (abbreviated / full without other_fields, abbreviated / full with other_fields) -/
-theorem ctx_countersign :
-    Facts.ctxCountersign = ["CounterSignature0", "CounterSignature", "CounterSignature0V2", "CounterSignatureV2"] := by
-  decide
 theorem ctx_model :
     ctxCounterSignature0 = utf8 "CounterSignature0" ∧ ctxCounterSignature = utf8 "CounterSignature" ∧
     ctxCounterSignature0V2 = utf8 "CounterSignature0V2" ∧ ctxCounterSignatureV2 = utf8 "CounterSignatureV2" :=
   ⟨rfl, rfl, rfl, rfl⟩
-/-- the abbreviated form passes h'' (0x40) as sign_protected, for signing and for verifying -/
-theorem abbrev_sign_protected : Facts.abbrevSignProtected = [0x40] ∧ Facts.abbrevSignProtectedVerify = [0x40] := by
-  decide
 
 /-- unsupported parents are refused -/
 theorem refuses_unsupported (abbr : Bool) (sp : Bytes) (ext : Option Bytes) :
